@@ -72,10 +72,25 @@ func c16Build(dir string, world int) *c16World {
 		w.srcCode, w.dstCode = []int{1, 2, 0, 1, 2}, []int{0, 1, 1, 0, 0}
 		w.itemCodes = [][]int{{1, 0, 2, 1, 0}, {0, 1, 1, 2, 0}}
 		w.sumDstCode = []int{1, 1, 0, 0, 1}
-	} else {
+	} else if world == 1 {
 		w.srcCode, w.dstCode = []int{2, 2, 1, 1, 2}, []int{2, 2, 1, 1, 2} // destination equals source
 		w.itemCodes = [][]int{{1, 1, 1, 1, 1}, {2, 2, 2, 2, 2}}
 		w.sumDstCode = []int{0, 0, 0, 0, 0}
+	} else {
+		// thorough: further contents derived from the world number
+		code := func(seed int) []int {
+			out := make([]int, 5)
+			for i := range out {
+				out[i] = (seed/(i+1) + i*seed) % 3
+			}
+			return out
+		}
+		w.srcCode, w.dstCode = code(world*7+1), code(world*11+2)
+		w.itemCodes = [][]int{code(world*5 + 3), code(world*13 + 4)}
+		w.sumDstCode = []int{world % 2, 0, (world / 2) % 2, 0, 1}
+		if world == 5 {
+			w.srcCode = []int{0, 0, 0, 0, 0} // a source without any value
+		}
 	}
 	return w
 }
@@ -423,8 +438,12 @@ func c16Eval(c *fw.Ctx, k c16Case) (sig, desc string, nontrivial bool, outcome s
 }
 
 func runC16(c *fw.Ctx) {
+	worlds := 2
+	if c.Thorough() {
+		worlds = 6 // further contents (see c16Build): sparse, dense, all-absent sources, destination = source ...
+	}
 	c.R.Bounds["product"] = fmt.Sprintf("%d commands x archive {-1,0,1,2,-2} x %d windows x %d text-out destinations x %d environments x 2 worlds", len(c16Cmds), len(c16Windows), len(c16TextOuts), len(c16Envs))
-	for world := 0; world < 2; world++ {
+	for world := 0; world < worlds; world++ {
 		for _, cmd := range c16Cmds {
 			for _, arch := range []int{-1, 0, 1, 2, -2} {
 				for _, win := range c16Windows {
